@@ -153,8 +153,20 @@ def run_one(ctl: explorer.Ctl, cfg: Dict[str, Any]) -> Dict[str, Any]:
     tail = lines[-1]
     lines = lines[:-1]
 
+    run_tag: Dict[str, Any] = {}
+    if cfg.get("part") == "unserialisable-runs":
+        longest = cur = 0
+        for (_, _, e) in seq:
+            cur = cur + 1 if e is None else 0
+            longest = max(longest, cur)
+        lo = 1
+        while lo * 2 <= longest:
+            lo *= 2
+        run_tag = {"part": "unserialisable-runs", "longest_run": f"{lo}-{2 * lo - 1}"}
+
     def bad(cls, msg, **extra):
-        viol.append({"sig": {"class": cls, **extra}, "msg": f"items={names} mode={cfg.get('mode')}: {msg}"})
+        shown = names if len(names) <= 6 else names[:3] + [f"... {len(names) - 5} more ..."] + names[-2:]
+        viol.append({"sig": {"class": cls, **extra, **run_tag}, "msg": f"items={shown} mode={cfg.get('mode')}: {msg}"})
 
     if tail != b"":
         bad("unterminated-line", f"stdin bytes do not end with a newline: ...{tail[-40:]!r}")
@@ -417,6 +429,238 @@ def slow_configs(tier: str) -> List[Dict[str, Any]]:
     return out
 
 
+# ---------------------------------------------------------------------------
+# long runs of messages that cannot be written: unserialisable items, and a pipe that fails for a while
+# ---------------------------------------------------------------------------
+RUN_PIPE = "vf.checks.c06:run_pipe_trouble"
+
+
+def unserialisable_run_configs(tier: str) -> List[Dict[str, Any]]:
+    """k unserialisable items in a row (one kind, or the kinds in rotation) before / between valid messages."""
+    table = _items()
+    bad = [i for i, t in enumerate(table) if t[2] is None]
+    ix = {t[0]: i for i, t in enumerate(table)}
+    v1, v2 = ix["typed-request"], ix["dict-response"]
+    kmax = 12 if tier == "quick" else 40
+    out = []
+    for k in range(1, kmax + 1):
+        runs = [[b] * k for b in bad] + [[bad[j % len(bad)] for j in range(k)]]
+        for run_ in runs:
+            for seq in ([v1] + run_ + [v2], run_ + [v2], [v1] + run_):
+                for mode in ("burst", "step"):
+                    out.append({"seq": seq, "mode": mode, "part": "unserialisable-runs"})
+    return out
+
+
+def run_pipe_trouble(ctl: explorer.Ctl, cfg: Dict[str, Any]) -> Dict[str, Any]:
+    """The child's stdin raises for k consecutive writes (starting at write number 'at'), then works again."""
+    import anyio
+
+    from chuk_mcp.transports.stdio.stdio_client import stdio_client
+
+    by_name = {t[0]: t for t in _items()}
+    kinds = ["typed-request", "dict-request", "str-json-dumps", "typed-notification"]
+    n = cfg["n"]
+    seq = [by_name[kinds[i % len(kinds)]] for i in range(n)]
+    at, k = cfg["at"], cfg["k"]
+    exc_cls = {"broken": anyio.BrokenResourceError, "oserror": OSError, "runtime": RuntimeError}[cfg["error"]]
+    loop = new_loop(horizon=30)
+    q = seams.Quiescence(loop)
+    proc = seams.FakeProcess()
+    proc.stdin.fail = lambda idx, data: (exc_cls("pipe trouble") if at <= idx < at + k else None)
+    info: Dict[str, Any] = {}
+
+    async def main():
+        with seams.patched_open_process(lambda cmd, kw: proc):
+            async with stdio_client(seams.stdio_params()) as (read, write):
+                for (name, mk, exp) in seq:
+                    await write.send(mk())
+                    if cfg.get("mode") == "step":
+                        await q.settle()
+                await q.settle()
+                info["closed_before"] = proc.stdin.closed
+                info["calls_before_close"] = proc.stdin.send_calls
+                await write.aclose()
+                await q.settle()
+                info["closed_after"] = proc.stdin.closed
+
+    status, val = loop.run_main(main())
+    errors = loop.collect_errors()
+    loop.abandon()
+    where = f"{n} messages, writes {at}..{at + k - 1} raise {cfg['error']}, mode={cfg.get('mode')}"
+    tag = {"part": "pipe-trouble", "error": cfg["error"]}
+    if status != "ok":
+        return {"outcome": status, "violations": [{"sig": {"class": "did-not-finish", **tag}, "msg": f"{where}: {status} {core.clean_repr(val)}"}]}
+    viol: List[dict] = []
+    lines = bytes(proc.stdin.data).split(b"\n")[:-1]
+    decoded = []
+    for raw in lines:
+        try:
+            decoded.append(json.loads(raw.decode("utf-8")))
+        except Exception:
+            decoded.append({"__not_json__": True})
+    # judged: every message whose write did not fail is on stdin once, in order (the failed ones may be lost); every
+    # message was attempted; the stream's close closes stdin - and not earlier
+    expected_ok = [t[2] for i, t in enumerate(seq) if not (at <= i < at + k)]
+    if not (len(decoded) == len(expected_ok) and all(strict_eq(a, b) for a, b in zip(decoded, expected_ok))):
+        viol.append({"sig": {"class": "messages-after-pipe-trouble-not-written", **tag},
+                     "msg": f"{where}: stdin has {len(decoded)} lines, {len(expected_ok)} writes were not disturbed "
+                            f"({info.get('calls_before_close')} writes attempted)"})
+    if info.get("calls_before_close", 0) < n:
+        viol.append({"sig": {"class": "later-messages-not-attempted", **tag},
+                     "msg": f"{where}: only {info.get('calls_before_close')} of {n} writes were attempted"})
+    if info.get("closed_before"):
+        viol.append({"sig": {"class": "stdin-closed-early", **tag}, "msg": f"{where}: child's stdin closed before the write stream was closed"})
+    if not info.get("closed_after"):
+        viol.append({"sig": {"class": "stdin-not-closed", **tag}, "msg": f"{where}: write stream closed but the child's stdin was not"})
+    if errors:
+        viol.append({"sig": {"class": "loop-error", **tag}, "msg": f"{errors[:2]}"})
+    return {"outcome": f"lines={len(lines)}/attempted={info.get('calls_before_close')}/closed={info.get('closed_after')}",
+            "cfg": cfg, "violations": viol}
+
+
+def pipe_trouble_configs(tier: str) -> List[Dict[str, Any]]:
+    kmax = 12 if tier == "quick" else 40
+    out = []
+    for k in range(1, kmax + 1):
+        for at in (0, 1):
+            for tail in (1, 2):
+                for err in ("broken", "oserror", "runtime"):
+                    for mode in ("burst", "step"):
+                        out.append({"n": at + k + tail, "at": at, "k": k, "error": err, "mode": mode})
+    return out
+
+
+# ---------------------------------------------------------------------------
+# two connections alive: one child does not read (its writer is parked in a pipe write), the other is healthy
+# ---------------------------------------------------------------------------
+RUN_TWO = "vf.checks.c06:run_two"
+STALLS = ["block", "slow-1s", "slow-11s", "slow-forever"]
+
+
+def run_two(ctl: explorer.Ctl, cfg: Dict[str, Any]) -> Dict[str, Any]:
+    """A is entered first, B second.  One of them ('stalled') has a child that takes one write and then does not
+    drain; the other sends its messages and closes its write stream in the meantime.  The healthy connection must
+    look exactly like its solo run: its lines on its child's stdin, then EOF, at that very instant."""
+    import asyncio
+
+    from chuk_mcp.transports.stdio.stdio_client import StdioClient
+
+    by_name = {t[0]: t for t in _items()}
+    kinds = ["typed-request", "dict-request", "str-json-dumps"]
+    healthy_seq = [by_name[kinds[i]] for i in cfg["seq"]]
+    stalled_msgs = [by_name["typed-notification"], by_name["dict-response"]][: cfg["stalled_n"]]
+    loop = new_loop(horizon=200)
+    q = seams.Quiescence(loop)
+    procs = {"A": seams.FakeProcess(), "B": seams.FakeProcess()}
+    st = cfg["stalled"]                       # "A" or "B"
+    he = "B" if st == "A" else "A"
+    stall = STALLS[cfg["stall"]]
+    if stall == "block":
+        procs[st].stdin.mode = "block"
+    else:
+        T = {"slow-1s": 1.0, "slow-11s": 11.0, "slow-forever": float("inf")}[stall]
+        procs[st].stdin.slow = lambda idx, data: (T if idx == 0 else None)
+    info: Dict[str, Any] = {}
+
+    async def main():
+        it = iter([procs["A"], procs["B"]])
+        with seams.patched_open_process(lambda cmd, kw: next(it)):
+            async with StdioClient(seams.stdio_params("server-a")) as A:
+                async with StdioClient(seams.stdio_params("server-b")) as B:
+                    clients = {"A": A, "B": B}
+                    _, w_st = clients[st].get_streams()
+                    _, w_he = clients[he].get_streams()
+
+                    async def stalled_sends():
+                        for (name, mk, exp) in stalled_msgs:
+                            await w_st.send(mk())
+                        await q.settle()
+
+                    async def healthy_sends():
+                        for (name, mk, exp) in healthy_seq:
+                            await w_he.send(mk())
+                            if cfg.get("mode") == "step":
+                                await q.settle()
+                        await q.settle()
+                        info["healthy_before_close"] = bytes(procs[he].stdin.data)
+                        await w_he.aclose()
+                        await q.settle()
+                        info["healthy_data"] = bytes(procs[he].stdin.data)
+                        info["healthy_closed"] = procs[he].stdin.closed
+
+                    if cfg["first"] == "stalled":
+                        await stalled_sends()
+                        await healthy_sends()
+                    else:
+                        await healthy_sends()
+                        await stalled_sends()
+                    info["stalled_calls_during"] = procs[st].stdin.send_calls
+                    await asyncio.sleep(60.0)     # virtual: every finite stall is over
+                    await q.settle()
+                    info["stalled_data"] = bytes(procs[st].stdin.data)
+
+    status, val = loop.run_main(main())
+    errors = loop.collect_errors()
+    loop.abandon()
+    where = (f"stalled={st} ({stall}, {len(stalled_msgs)} message(s)), healthy={he} sends {[t[0] for t in healthy_seq]} "
+             f"mode={cfg.get('mode')} first={cfg['first']}")
+    tag = {"part": "two-connections", "stall": stall, "healthy": "entered-first" if he == "A" else "entered-second"}
+    if status != "ok":
+        return {"outcome": status, "violations": [{"sig": {"class": "did-not-finish", **tag}, "msg": f"{where}: {status} {core.clean_repr(val)}"}]}
+    viol: List[dict] = []
+
+    def decode(data: bytes):
+        out = []
+        for raw in data.split(b"\n")[:-1]:
+            try:
+                out.append(json.loads(raw.decode("utf-8")))
+            except Exception:
+                out.append({"__not_json__": True})
+        return out
+
+    exp_h = [t[2] for t in healthy_seq]
+    got_h = decode(info.get("healthy_data", b""))
+    if not (len(got_h) == len(exp_h) and all(strict_eq(a, b) for a, b in zip(got_h, exp_h))) \
+            or not info.get("healthy_data", b"").endswith(b"\n"):
+        viol.append({"sig": {"class": "healthy-connection-held-up-by-another", **tag},
+                     "msg": f"{where}: the healthy child's stdin has {len(got_h)} of {len(exp_h)} lines when its write stream "
+                            f"was closed (alone it has all of them at that instant)"})
+    if not info.get("healthy_closed"):
+        viol.append({"sig": {"class": "healthy-connection-stdin-not-closed", **tag},
+                     "msg": f"{where}: closing the healthy connection's write stream did not close its child's stdin"})
+    exp_s = [t[2] for t in stalled_msgs]
+    got_s = decode(info.get("stalled_data", b""))
+    if stall in ("slow-1s", "slow-11s"):
+        ok = len(got_s) == len(exp_s) and all(strict_eq(a, b) for a, b in zip(got_s, exp_s))
+    elif stall == "slow-forever":
+        ok = len(got_s) >= 1 and all(strict_eq(a, b) for a, b in zip(got_s, exp_s)) and len(got_s) <= len(exp_s)
+    else:
+        ok = got_s == []                        # a write that never takes the bytes
+    if not ok:
+        viol.append({"sig": {"class": "stalled-connection-lines-wrong", **tag},
+                     "msg": f"{where}: the stalled child got {len(got_s)} lines for {len(exp_s)} messages"})
+    if errors:
+        viol.append({"sig": {"class": "loop-error", **tag}, "msg": f"{errors[:2]}"})
+    return {"outcome": f"healthy={len(got_h)}/{len(exp_h)} closed={info.get('healthy_closed')} stalled={len(got_s)}/{len(exp_s)}",
+            "cfg": cfg, "violations": viol}
+
+
+def two_connection_configs(tier: str) -> List[Dict[str, Any]]:
+    out = []
+    maxlen = 2 if tier == "quick" else 3
+    for stalled in ("A", "B"):
+        for stall in range(len(STALLS)):
+            for stalled_n in (1, 2):
+                for L in range(1, maxlen + 1):
+                    for combo in itertools.product(range(3), repeat=L):
+                        for mode in ("burst", "step"):
+                            for first in ("stalled", "healthy"):
+                                out.append({"stalled": stalled, "stall": stall, "stalled_n": stalled_n, "seq": list(combo),
+                                            "mode": mode, "first": first})
+    return out
+
+
 def _family(n: str) -> str:
     return n.split("-")[0]
 
@@ -467,6 +711,15 @@ def run(tier: str, only=None) -> core.Result:
     scfgs = slow_configs(tier)
     out = explorer.explore(RUN_SLOW, scfgs, fidelity=True)
     sched.absorb(res, "slow-pipe", RUN_SLOW, out, scfgs)
+    ucfgs = unserialisable_run_configs(tier)
+    out = explorer.explore(RUN, ucfgs, fidelity=True)
+    sched.absorb(res, "runs-of-unserialisable-items", RUN, out, ucfgs)
+    pcfgs = pipe_trouble_configs(tier)
+    out = explorer.explore(RUN_PIPE, pcfgs, fidelity=True)
+    sched.absorb(res, "pipe-fails-for-a-while", RUN_PIPE, out, pcfgs)
+    tcfgs = two_connection_configs(tier)
+    out = explorer.explore(RUN_TWO, tcfgs, fidelity=True)
+    sched.absorb(res, "two-connections-alive", RUN_TWO, out, tcfgs)
     if not only or "backends" in only:
         from .. import c06_backend
 
@@ -481,7 +734,13 @@ def run(tier: str, only=None) -> core.Result:
         "batch arriving before / between / after the writes); plus a full pipe: all sequences of <= "
         f"{3 if tier == 'quick' else 4} messages over typed request / typed notification / dict / pre-serialised string x the "
         "position of the message whose write takes the bytes and then keeps the writer waiting x wait in {1, 4.9, 5.1, 11 s, "
-        "forever} (virtual) x {burst, settle-after-each}; plus, in fresh interpreters of the four backend configurations "
+        "forever} (virtual) x {burst, settle-after-each}; plus runs of k = 1.."
+        f"{12 if tier == 'quick' else 40} unserialisable items of one kind (each of the kinds) or of the kinds in rotation, before / "
+        "between / after valid messages; plus a pipe whose write raises (BrokenResourceError, OSError, RuntimeError) for k "
+        "consecutive writes starting at the first or second message and works again afterwards; plus two connections alive "
+        "on one loop, one of which (either) has a child that blocks / takes one write and drains after 1 s, 11 s or never, "
+        "while the other sends <= "
+        f"{2 if tier == 'quick' else 3} messages and closes its write stream, before or after the stall began; plus, in fresh interpreters of the four backend configurations "
         "(pydantic or fallback models x orjson or stdlib json), a pretty-printing call made BEFORE the connection "
         "({none, model_dump_json(indent=2), fast_json.dumps(x, indent=2)}) followed by three write-stream sequences; "
         "distinct = distinct observation digests"
@@ -493,6 +752,10 @@ def run(tier: str, only=None) -> core.Result:
         "full pipe: the scripted stdin records the bytes when send() is called and then suspends the caller (write + drain); a "
         "pipe that takes only part of a line is not modelled; when the pipe never drains only 'no duplicates, order kept, "
         "everything up to the slow message present' is required",
+        "pipe trouble: a message whose write raised may be lost; required are: every other message once and in order, every "
+        "message attempted, stdin closed by (and not before) the close of the write stream",
+        "two connections: the healthy connection is judged at the instant its write stream was closed (as in a solo run), "
+        "the stalled one after 60 virtual seconds",
         "backend part: each (configuration, pre-step) runs in its own fresh interpreter, so nothing depends on what other "
         "cases did before",
     ]
